@@ -79,8 +79,28 @@ func enumNodeStates(k, base int, memUses []int64, withNUMA bool) []*nState {
 			for j, c := range cur {
 				caps[j], uses[j] = c.c, c.u
 			}
-			for _, mu := range memUses {
-				out = append(out, &nState{Cap: caps, Use: uses, MemCap: 100, MemUse: mu})
+			// NUMA nodes additionally get total usages that leave less free memory than the NUMA
+			// nodes' free memory adds up to, but more than one request (20, 50 of 100)
+			numaOnly := map[int64]bool{}
+			all := append([]int64{}, memUses...)
+			if withNUMA && k >= 2 {
+				for _, extra := range []int64{20, 50} {
+					dup := false
+					for _, mu := range memUses {
+						if mu == extra {
+							dup = true
+						}
+					}
+					if !dup {
+						numaOnly[extra] = true
+						all = append(all, extra)
+					}
+				}
+			}
+			for _, mu := range all {
+				if !numaOnly[mu] {
+					out = append(out, &nState{Cap: caps, Use: uses, MemCap: 100, MemUse: mu})
+				}
 				if withNUMA && k >= 2 {
 					numa := make([]string, k)
 					for j := range numa {
